@@ -31,6 +31,15 @@ def run(c):
         {"kind": "container", "args": ["RAW", "nosuchcmd"], "timeout_ms": 3000},
         {"kind": "container", "args": ["exit", "0"], "timeout_ms": 3000, "cb": "fail"},
         {"kind": "container", "args": ["exit", "0"], "timeout_ms": 3000, "cb": "fail", "sync_after": True},
+        {"kind": "container", "args": ["RAW", "nosuchcmd"], "timeout_ms": 3000, "files": True},
+        {"kind": "container", "args": ["RAW", "nosuchcmd"], "timeout_ms": 3000, "files": True, "execfd": True},
+        {"kind": "container", "args": ["RAW"], "timeout_ms": 3000, "files": True},
+        {"kind": "container", "args": ["RAW", "/w/missing"], "timeout_ms": 3000, "files": True},
+        {"kind": "container", "args": ["exit", "0"], "timeout_ms": 3000, "files": True, "cb": "fail"},
+        {"kind": "container", "args": ["exit", "0"], "timeout_ms": 3000, "files": True},
+        {"kind": "ptrace", "args": ["exit", "3"], "timeout_ms": 3000, "bg": True},
+        {"kind": "ns", "args": ["exit", "0"], "timeout_ms": 3000, "bg": True},
+        {"kind": "container", "args": ["exit", "0"], "timeout_ms": 3000, "bg": True},
         {"kind": "open", "args": [], "timeout_ms": 1000},
         {"kind": "forkfail", "args": [], "timeout_ms": 1000},
         {"kind": "clonefail", "args": [], "timeout_ms": 1000},
